@@ -123,6 +123,7 @@ type dNode struct {
 	loosened      map[string][32]byte // secret files given a wider mode by hand (restored backup): name -> content then
 	lastGroup     map[string]*key.Group // C20: what this node wrote last, per beacon id
 	lastShare     map[string]*key.Share
+	finishedAt    map[uint32]time.Time // when this node recorded each epoch as completed
 }
 
 func (n *dNode) bumpRoute() {
@@ -674,6 +675,21 @@ func (e *daemonEngine) collectEpoch(id string, members []int, epochNo int, old *
 			facts := strings.SplitN(d, ":", 2)[0]
 			if facts == "transition_time" && epochNo > 1 && (ref.TransitionTime == ref.GenesisTime || g.TransitionTime == g.GenesisTime) {
 				facts = "transition_time-equals-genesis-after-reshare"
+			}
+			if facts == "transition_time" {
+				// the known way for transition times to differ is that the two nodes finished the key generation in
+				// different rounds; if both finished within one round, this is something else
+				n.mu.Lock()
+				ta := n.finishedAt[uint32(epochNo)]
+				n.mu.Unlock()
+				rn := e.nodes[refNode]
+				rn.mu.Lock()
+				tb := rn.finishedAt[uint32(epochNo)]
+				rn.mu.Unlock()
+				if !ta.IsZero() && !tb.IsZero() && cc.genesis.Unix() > 0 &&
+					refCurrentRound(ta.Unix(), e.sc.PeriodS, cc.genesis.Unix()) == refCurrentRound(tb.Unix(), e.sc.PeriodS, cc.genesis.Unix()) {
+					facts = "transition_time-differs-although-both-finished-in-the-same-round"
+				}
 			}
 			if strings.HasPrefix(facts, "transition_time") {
 				ep.ttDiffer = true
